@@ -34,7 +34,11 @@ ASSUMPTIONS = [
     "hostnames, paths and methods contain no ';' (the state keys an HTTP route by a ';'-joined string, the model by the tuple)",
     "answer files (file://, answer_NNN), certificate chains, groups_list/cipher_suites and metrics sections are not generated; answers maps, tls_versions, cipher_list, header edits travel through the model as opaque data",
 ]
-TRUSTED = ["translator props/c20.py:translate extracts the counter type of generate_config_messages, the defaults and H2_MIN_BUFFER_SIZE from command/src/config.rs into coq/C20/Gen.v"]
+TRUSTED = ["translator props/c20.py:translate reads the counter type of generate_config_messages (or of the private helper that numbers the messages), "
+           "the defaults and H2_MIN_BUFFER_SIZE from command/src/config.rs into coq/C20/Gen.v: comments stripped, locals by any name, constants "
+           "resolved through named constants, every site of a fact read; a construct it does not recognise is reported `unreadable:` and its value "
+           "taken from the committed snapshot props/c20_facts.json, the correspondence check then being the tie (TRANSLATE_FALLBACK); a recognised "
+           "construct with another value, and anything about the counter's width, is a hard failure"]
 
 
 # ---------------------------------------------------------------------------
@@ -136,6 +140,25 @@ def int_value(src, expr, depth=0):
     m = re.fullmatch(r"(?:(?:Self|self|crate|super|\w+)::)*([A-Z][A-Z0-9_]*)", e)
     if m:
         return int_value(src, const_expr(src, m.group(1)), depth + 1)
+    # a product / sum of such terms (60 * 60 * 24 * 365)
+    for op in ("+", "*"):
+        parts, lvl, cur = [], 0, ""
+        for ch in e:
+            if ch == "(": lvl += 1
+            elif ch == ")": lvl -= 1
+            if ch == op and lvl == 0:
+                parts.append(cur); cur = ""
+            else:
+                cur += ch
+        parts.append(cur)
+        if len(parts) > 1:
+            vals = [int_value(src, x, depth + 1) for x in parts]
+            if None in vals:
+                return None
+            r = 0 if op == "+" else 1
+            for v in vals:
+                r = r + v if op == "+" else r * v
+            return r
     return None
 
 
@@ -159,6 +182,8 @@ def read_facts(src_raw, proto_raw):
     """-> (facts read (None where a construct was not recognised), hard failures, unreadable messages)"""
     hard, soft = [], []
     src = strip_comments(src_raw)
+    t = re.search(r"#\[cfg\(test\)\]\s*mod\s+\w+", src)
+    src = src[:t.start()] if t else src                     # the unit tests construct the same structures with values of their own
     facts = {}
     # --- generate_config_messages: the counter and the numbering discipline.  The ids are built where
     # format!("CONFIG-{<counter>}") stands: in generate_config_messages itself or in a private helper it calls.
@@ -189,7 +214,7 @@ def read_facts(src_raw, proto_raw):
                 n_inc = len(re.findall(r"(?<![\w.])\*?\s*%s\s*\+=\s*1\s*;" % counter, body)) \
                     + len(re.findall(r"(?<![\w.])\*?\s*%s\s*=\s*\*?\s*%s\s*\+\s*1\s*;" % (counter, counter), body))
                 if n_push == 0 or n_ids != n_push or n_inc not in (n_push, n_push - 1):
-                    soft.append("config.rs: fn %s: %d pushed WorkerRequest, %d ids built from `%s`, %d increments of it: they no longer "
+                    hard.append("config.rs: fn %s: %d pushed WorkerRequest, %d ids built from `%s`, %d increments of it: they no longer "
                                 "pair up one to one (model: every message takes the counter's value and increments it)" % (owner, n_push, n_ids, counter, n_inc))
                 c = re.search(r"\blet\s+mut\s+%s\s*(?::\s*(\w+))?\s*=\s*0(?:_?([ui](?:8|16|32|64|128|size)))?\s*;" % counter, body)
                 prm = sig and re.search(r"\b(?:mut\s+)?%s\s*:\s*(?:&\s*(?:'\w+\s+)?mut\s+)?(\w+)" % counter, sig.group(1))
@@ -209,7 +234,7 @@ def read_facts(src_raw, proto_raw):
         if e is None:
             soft.append("config.rs: constant %s not found" % name)
         elif v is None:
-            soft.append("config.rs: constant %s = %s is not an integer literal or a named integer constant" % (name, e[:60]))
+            hard.append("config.rs: constant %s = %s cannot be evaluated (integer literals, named constants, + and * are read)" % (name, e[:60]))
     m = re.search(r'\bconst\s+DEFAULT_STICKY_NAME\s*:\s*&(?:\'static\s+)?str\s*=\s*"([^"]*)"\s*;', src)
     facts["sticky"] = m.group(1) if m else None
     if not m:
@@ -222,44 +247,102 @@ def read_facts(src_raw, proto_raw):
     ws = re.findall(r"\bweight\s*:\s*[\w.]*\bweight\s*\.\s*unwrap_or\(\s*([\w:]+)\s*\)", src)
     vals = set(int_value(src, w) for w in ws)
     facts["weight"] = None
-    if not ws or None in vals:
-        soft.append("config.rs: the default backend weight (`weight: backend.weight.unwrap_or(100)`) was not found")
+    n_sites = len(re.findall(r"\bLoadBalancingParams\s*\{", src))
+    if not ws or None in vals or len(ws) != n_sites:
+        if len(vals - {None}) > 1:
+            hard.append("config.rs: the backend conversions no longer agree on the default weight: %s" % sorted(vals - {None}))
+        soft.append("config.rs: %d LoadBalancingParams are built, the default weight (`weight: <backend>.weight.unwrap_or(100)`) was read at %d of them"
+                    % (n_sites, len([w for w in ws if int_value(src, w) is not None])))
     elif len(vals) != 1:
         hard.append("config.rs: the backend conversions no longer agree on the default weight: %s" % sorted(vals))
     else:
         facts["weight"] = vals.pop()
-    # --- default backend id {cluster}-{index}-{address}
-    ids_ = re.findall(r'format!\(\s*"\{\}-\{\}-\{\}"\s*,\s*([\w.]+)\s*,\s*([\w.]+)\s*,\s*([\w.]+)\s*\)', src) + \
-        [tuple(x) for x in re.findall(r'format!\(\s*"\{(\w+)\}-\{(\w+)\}-\{\}"\s*,\s*()([\w.]+)\s*\)', src)]
-    ok_ids = [t for t in ids_ if t[0].split(".")[-1] == "cluster_id" and t[-1].split(".")[-1] == "address"]
-    facts["backend_id"] = "cluster-index-address" if ok_ids else None
-    if not ok_ids:
-        soft.append("config.rs: the default backend id format!(\"{}-{}-{}\", <cluster_id>, <index>, <backend>.address) was not found")
+    # --- default backend id {cluster}-{index}-{address}: the `backend_id:` of every AddBackend built outside the tests,
+    # followed through one private helper
+    def classify_id(expr, depth=0):
+        m = re.search(r'format!\(\s*"([^"]*)"\s*((?:,\s*[\w.]+\s*)*)\)', expr)
+        if m:
+            args = [a.strip() for a in m.group(2).split(",") if a.strip()]
+            fmt = m.group(1)
+            it = iter(args)
+            resolved = [p_ if p_ else next(it, "?") for p_ in re.findall(r"\{(\w*)\}", fmt)]
+            shape = re.sub(r"\{\w*\}", "{}", fmt)
+            if shape == "{}-{}-{}" and len(resolved) == 3 and resolved[0].split(".")[-1] == "cluster_id" and resolved[2].split(".")[-1] == "address" \
+                    and re.fullmatch(r"\w*(count|index|idx|i|n)\w*", resolved[1].split(".")[-1]) \
+                    and re.search(r"\.\s*(unwrap_or_else|unwrap_or|map_or_else|or_else)\s*\(|\bNone\s*=>", expr):
+                return "good"
+            return 'bad: format!("%s", %s)' % (fmt, ", ".join(args))
+        if depth == 0:
+            for h in re.findall(r"\b([a-z_]\w*)\s*\(", expr):
+                hb = fn_bodies(src, h)
+                if len(hb) == 1 and "backend_id" in hb[0]:
+                    return classify_id(hb[0], 1)
+        return "unknown"
+
+    sites = []
+    for m in re.finditer(r"\bAddBackend\s*\{", src):
+        k, depth = m.end(), 1
+        while k < len(src) and depth:
+            depth += {"{": 1, "}": -1}.get(src[k], 0); k += 1
+        block = src[m.end():k - 1]
+        f_ = re.search(r"\bbackend_id\s*(:)?", block)
+        if not f_:
+            continue
+        if not f_.group(1):                                   # field init shorthand `backend_id,`: the local of that name
+            loc = re.findall(r"\blet\s+backend_id\s*(?::[^=]+)?=\s*([^;]+);", src[:m.start()])
+            sites.append(loc[-1] if loc else "")
+            continue
+        e, lvl, q = "", 0, f_.end()
+        while q < len(block) and not (block[q] == "," and lvl == 0):
+            lvl += {"(": 1, "[": 1, "{": 1, ")": -1, "]": -1, "}": -1}.get(block[q], 0)
+            e += block[q]; q += 1
+        sites.append(e)
+    verdicts = [classify_id(e) for e in sites]
+    facts["backend_id"] = None
+    if any(v.startswith("bad") for v in verdicts):
+        hard.append("config.rs: a default backend id is no longer {cluster_id}-{index}-{address}: %s" % "; ".join(v for v in verdicts if v.startswith("bad")))
+    elif not sites or "unknown" in verdicts:
+        soft.append("config.rs: the default backend id (`backend_id: <b>.backend_id.clone().unwrap_or_else(|| format!(\"{}-{}-{}\", <cluster_id>, <index>, "
+                    "<b>.address))`) was read at %d of the %d AddBackend built" % (verdicts.count("good"), len(sites)))
+    else:
+        facts["backend_id"] = "cluster-index-address"
     # --- default TLS versions of an HTTPS listener
     v12 = re.search(r"\bTLS_V1_2\s*=\s*(\d+)\s*;", proto_raw); v13 = re.search(r"\bTLS_V1_3\s*=\s*(\d+)\s*;", proto_raw)
-    dflt = re.search(r"\bNone\s*=>\s*\{?\s*vec!\[([^\]]*)\]", src)
     facts["tls_versions"] = None
+    blk = re.search(r"\bmatch\s+[&\w.]*\btls_versions\b[^{]*\{", src)
+    dflt = None
+    if blk:
+        end = blk.end()
+        depth, k = 1, end
+        while k < len(src) and depth:
+            depth += {"{": 1, "}": -1}.get(src[k], 0); k += 1
+        dflt = re.search(r"\bNone\s*=>\s*\{?\s*([^,;{}]*?vec!\[[^\]]*\][^,;{}]*)", src[end:k])
     if not (v12 and v13):
-        soft.append("command.proto: TLS_V1_2 / TLS_V1_3 not found")
-    elif not dflt or not re.search(r"TlsVersion", dflt.group(1)):
-        soft.append("config.rs: the default TLS versions of an HTTPS listener (`None => vec![TlsVersion::TlsV12 as i32, TlsVersion::TlsV13 as i32]`) were not found")
+        hard.append("command.proto: TLS_V1_2 / TLS_V1_3 not found")
+    elif not dflt:
+        soft.append("config.rs: the default TLS versions of an HTTPS listener (`match self.tls_versions { None => vec![TlsVersion::TlsV12 as i32, "
+                    "TlsVersion::TlsV13 as i32], .. }`) were not found")
     else:
         names = re.findall(r"TlsVersion::(\w+)", dflt.group(1))
         table = {"TlsV12": int(v12.group(1)), "TlsV13": int(v13.group(1))}
-        if any(x not in table for x in names):
-            hard.append("config.rs: the default TLS versions of an HTTPS listener are %s (model: TLS 1.2 and 1.3 only)" % names)
+        if not names or any(x not in table for x in names) or not re.fullmatch(r"\s*vec!\[\s*(TlsVersion::\w+\s+as\s+i32\s*,?\s*)+\]\s*", dflt.group(1)):
+            hard.append("config.rs: the default TLS versions of an HTTPS listener read `%s` (model: a vec! of TlsVersion::TlsV12 / TlsV13 as i32)" % dflt.group(1).strip()[:80])
         else:
             facts["tls_versions"] = [table[x] for x in names]
-    # --- x_real_ip flags default to false
+    # --- x_real_ip flags default to false, at every site that fills the field of a listener message
     flags = {}
     for fld in ("elide_x_real_ip", "send_x_real_ip"):
-        occ = re.findall(r"\b%s\s*:\s*Some\(\s*[\w.]*\b%s\s*\.\s*(unwrap_or\(\s*[\w:]+\s*\)|unwrap_or_default\(\))\s*\)" % (fld, fld), src)
-        vs = set(False if o.startswith("unwrap_or_default") else bool_value(src, re.search(r"\((.*)\)", o).group(1)) for o in occ)
-        if not occ or None in vs:
-            soft.append("config.rs: the default of %s (`Some(self.%s.unwrap_or(false))`) was not found" % (fld, fld))
-            flags[fld] = None
-        elif vs != {False}:
+        # (not the field's declaration, the builder's `None` initialiser or a `name: bool` parameter)
+        inits = [x for x in re.findall(r"\b%s\s*:\s*([^,\n]*)" % fld, src)
+                 if not re.fullmatch(r"\s*(None|bool\s*\)?.*|Option\s*<.*)\s*", x)]
+        occ = [re.fullmatch(r"Some\(\s*[\w.]*\b%s\s*\.\s*(unwrap_or\(\s*([\w:]+)\s*\)|unwrap_or_default\(\))\s*\)\s*" % fld, x.strip()) for x in inits]
+        vs = set((False if o.group(1).startswith("unwrap_or_default") else bool_value(src, o.group(2))) for o in occ if o)
+        if True in vs:
             hard.append("config.rs: %s no longer defaults to false" % fld)
+            flags[fld] = None
+        elif not inits or None in occ or None in vs:
+            soft.append("config.rs: the default of %s (`%s: Some(self.%s.unwrap_or(false))`) was read at %d of %d sites"
+                        % (fld, fld, fld, len([o for o in occ if o]), len(inits)))
             flags[fld] = None
         else:
             flags[fld] = False
